@@ -26,6 +26,9 @@ def gen_param(rng, name, kinds=None, depth=None):
     q = rng.random()
     if q < 0.1:
         p['constant'] = gen_dt.complete(spec, gen_dt.gen_valid(spec, rng, True), rng)
+        # constants that are 'false' in python terms (enum member 0, empty blob, scaled 0, ...) are constants all the same
+        if gen_dt.zero_like(spec) is not None and rng.random() < 0.4:
+            p['constant'] = gen_dt.zero_like(spec)
         p['readonly'] = True
         p['has_read'] = p['has_write'] = False
     q = rng.random()
